@@ -682,3 +682,194 @@ _run2 = run
 def run(ctx, rep, tier):
     _run2(ctx, rep, tier)
     _next_calls(ctx, rep, tier)
+
+
+# ---------------------------------------------------------------------------------------------------------------- C18.l
+RENDER_TAGS = {"NAME", "SOURCE_LINE", "SOURCE_COLUMN", "MACRO_INSTANCE"}      # what NMFUError._get_message asks of each reason
+# raises in constructors that cite a half-built `self` but cannot run: (class) -> (reason, [(function, construct that makes it dead)])
+HALF_BUILT_DEAD = {
+    "SetToStr": ("only constructed for str outputs", [("ParseCtx._parse_assign_stmt", "SetToStr(result, targeted)")]),
+}
+
+
+def _render_reads(model, cls):
+    """self attributes read by cls.debug_lookup (resolved through the MRO) on the branches taken for the tags a diagnostic asks for."""
+    owner, f = model.resolve_method(cls, "debug_lookup")
+    if f is None:
+        return set(), None
+    reads = set()
+    methods = set()
+
+    def visit(stmts):
+        for st in stmts:
+            if isinstance(st, ast.If):
+                m = re.fullmatch(r"tag == DTAG\.(\w+)", ast.unparse(st.test))
+                collect(st.test)
+                if m is None or m.group(1) in RENDER_TAGS:
+                    visit(st.body)
+                visit(st.orelse)
+            else:
+                collect(st)
+
+    def collect(node):
+        for n in ast.walk(node):
+            if isinstance(n, ast.Attribute) and isinstance(n.value, ast.Name) and n.value.id == "self" and isinstance(n.ctx, ast.Load):
+                o, mf = model.resolve_method(cls, n.attr)
+                if mf is not None:
+                    if n.attr not in methods:
+                        methods.add(n.attr)
+                        collect(mf)
+                else:
+                    reads.add(n.attr)
+    visit(strip_doc(f.body))
+    return reads, owner
+
+
+def _assigned_before(model, cls, init, raise_node):
+    """self attributes unconditionally assigned on the way to `raise_node` inside `init` (statements preceding it in its block and in the
+    enclosing blocks), including those a preceding super().__init__() assigns at its top level."""
+    got = set()
+
+    def top_assigns(stmts, upto=None):
+        for st in stmts:
+            if upto is not None and st is upto:
+                break
+            if isinstance(st, (ast.Assign, ast.AnnAssign)):
+                for t in (st.targets if isinstance(st, ast.Assign) else [st.target]):
+                    for e in (t.elts if isinstance(t, ast.Tuple) else [t]):
+                        if isinstance(e, ast.Attribute) and isinstance(e.value, ast.Name) and e.value.id == "self":
+                            got.add(e.attr)
+            elif isinstance(st, ast.Expr) and isinstance(st.value, ast.Call) and ast.unparse(st.value.func) == "super().__init__":
+                for b in model.mro(cls)[1:]:
+                    bi = model.classes.get(b)
+                    if bi and "__init__" in bi.methods:
+                        top_assigns(bi.methods["__init__"].body)
+                        break
+    node = raise_node
+    while node is not init and node in model.parents:
+        parent = model.parents[node]
+        for fld in ("body", "orelse", "finalbody"):
+            lst = getattr(parent, fld, None)
+            if isinstance(lst, list) and node in lst:
+                top_assigns(lst, upto=node)
+        node = parent
+    return got
+
+
+def _half_built_reasons(ctx, rep, tier):
+    model = ctx.model
+    rep.rule("C18.l", "a constructor that raises a diagnosed error citing `self` has already assigned every field its debug_lookup reads when the message is rendered")
+    n = 0
+    for cn, ci in model.classes.items():
+        init = ci.methods.get("__init__")
+        if init is None:
+            continue
+        for r in walk_no_nested(init):
+            if not (isinstance(r, ast.Raise) and isinstance(r.exc, ast.Call) and any(isinstance(a, ast.Name) and a.id == "self" for a in r.exc.args)):
+                continue
+            n += 1
+            reads, owner = _render_reads(model, cn)
+            have = _assigned_before(model, cn, init, r) | set(ci.attrs)
+            missing = sorted(reads - have)
+            what = f"raise {raised_class(r)}(.., self) in {cn}.__init__"
+            if not missing:
+                rep.ok("C18.l", f"{cn}.__init__", f"{what}: debug_lookup ({owner or 'none'}) reads {sorted(reads) or 'nothing'} - assigned before the raise")
+                continue
+            dead = HALF_BUILT_DEAD.get(cn)
+            if dead is not None:
+                reason, sites = dead
+                # the only construction sites are the listed ones, each under the guard that makes the raise dead
+                made = [(q, c) for q, f in model.functions.items() for c in calls_in(f, nested=False) if isinstance(c.func, ast.Name) and c.func.id == cn]
+                okd = bool(made) and all(any(q == fq and model.has(fq, pat) for fq, pat in sites) for q, _ in made)
+                if cn == "SetToStr":
+                    from ..guards import enclosing_conditions
+                    okd = okd and all(any(t == "targeted.type == OutputStorageType.STR" and pol for t, pol in enclosing_conditions(model, c, model.func(q))) for q, c in made)
+                rep.check(okd, "C18.l", f"{cn}.__init__", f"{what}: dead - {reason}", f"{cn} is now constructed where its constructor can raise with `self` half-built ({missing} unassigned): rendering the error dies with AttributeError", line=r.lineno)
+                continue
+            rep.bad("C18.l", f"{cn}.__init__", what, f"the error cites `self` before {missing} is assigned, and {owner}.debug_lookup reads it when the message is rendered: "
+                    "str(error) dies with AttributeError instead of printing the diagnosis", line=r.lineno)
+    if n < 5:
+        raise AnalysisError(f"C18.l: only {n} constructor raises citing self found (floor 5)")
+    # Tree subclasses keep their position in diagnostics
+    sub = [c for c, ci in model.classes.items() if "lark.Tree" in ci.bases]
+    if sub:
+        rep.check(model.has("ProgramData.lookup", "isinstance(obj, lark.Tree)") and not model.has("ProgramData.lookup", "type(obj) is lark.Tree"), "C18.l", "ProgramData.lookup",
+                  f"position lookup accepts Tree subclasses ({', '.join(sub)})", "a Tree subclass cited as the reason of an error loses its source position (exact type test)")
+
+
+_run3 = run
+
+
+def run(ctx, rep, tier):
+    _run3(ctx, rep, tier)
+    _half_built_reasons(ctx, rep, tier)
+
+
+# ---------------------------------------------------------------------------------------------------------------- C18.m
+# coll.remove(x) (ValueError / KeyError when absent) and `del coll[k]` (KeyError / IndexError): guarded, or present by construction.
+REMOVE_TRIAGE = {
+    ("DFState.__delitem__", "_1.on_values.remove(_2)"): "integer-id convenience API used by tests only; not reachable from the compiler pipeline",
+    ("DFState.__delitem__", "self.transitions.remove(_1)"): "`contained` was found by iterating self.all_transitions()",
+    ("DFState.transition", "self.transitions.remove(_1)"): "`contain` is drawn from self.transitions (the overlap scan) and removed at most once: it is emptied only here",
+    ("CaseNode._find_case_actions", "del self.sub_matches[_1]"): "keys collected while iterating self.sub_matches.items(); each key once",
+    ("CaseNode._merge", "_1.remove(_2)"): "a and b are a pair of distinct elements drawn from local_alphabet by itertools.combinations",
+    ("LoopNode.convert", "_1.actions.remove(self.break_action)"): "transitions_that_do(self.break_action) yields only transitions whose actions contain it",
+    ("ParseCtx._parse_macro_call", "del self.bound_argument_stack[-1]"): "pops the frame pushed before the body was expanded (C13.d pairing)",
+    ("CodegenCtx._generate_condition_for_transition", "_1.remove(_2)"): "`used` holds elements taken from on_values_remaining by index, each once (runs do not overlap: C06 range rule)",
+    ("debug_dump_dfa.build_label_onvalues", "_1.remove(_2)"): "debug graph output: same construction as the code generator's range collapse",
+    ("ProgramData.lookup", "del cls._refmap[_1]"): "under `obj in cls._refmap` with id_obj == obj for integer handles",
+}
+
+
+def _partial_removals(ctx, rep, tier):
+    from ..pat import shape
+    from ..guards import enclosing_conditions
+    model = ctx.model
+    rep.rule("C18.m", "coll.remove(x) / del coll[k] cannot raise: inside try/except, under a membership test, removing the element of a loop over a copy of the collection, or triaged with the construct that guarantees presence")
+    n = 0
+    for q, f in model.functions.items():
+        sites = []
+        for node in walk_no_nested(f):
+            if isinstance(node, ast.Call) and isinstance(node.func, ast.Attribute) and node.func.attr == "remove" and len(node.args) == 1:
+                sites.append((node, node.func.value, node.args[0]))
+            elif isinstance(node, ast.Delete):
+                for t in node.targets:
+                    if isinstance(t, ast.Subscript):
+                        sites.append((node, t.value, t.slice))
+        for node, coll, elem in sites:
+            n += 1
+            cs, es = ast.unparse(coll), ast.unparse(elem)
+            what = ast.unparse(node)[:70]
+            guarded = None
+            # try/except
+            x = node
+            while x in model.parents and x is not f:
+                child, x = x, model.parents[x]
+                if isinstance(x, ast.Try) and any(child is s for s in x.body) and any(h.type is None or re.search(r"\b(ValueError|KeyError|IndexError|LookupError|Exception)\b", ast.unparse(h.type)) for h in x.handlers):
+                    guarded = "inside try/except"
+                if guarded is None and isinstance(x, ast.For) and isinstance(x.target, ast.Name) and x.target.id == es and child in x.body:
+                    it = ast.unparse(x.iter)
+                    if it in (f"{cs}.copy()", f"list({cs})", f"set({cs})", f"tuple({cs})"):
+                        guarded = f"element of a loop over a copy of {cs}"
+            if guarded is None:
+                for test, pol in enclosing_conditions(model, node, f):
+                    if pol and any(part.strip("() ") == f"{es} in {cs}" for part in re.split(r"\band\b", test)):
+                        guarded = f"under `if {es} in {cs}`"
+            if guarded:
+                rep.ok("C18.m", q, f"{what}: {guarded}")
+                continue
+            key = (q, shape(model, f, node if isinstance(node, ast.Delete) else node))
+            reason = REMOVE_TRIAGE.get(key)
+            rep.check(reason is not None, "C18.m", q, f"{what}: {reason[:80] if reason else 'untriaged'}",
+                      f"`{what}` raises when the element / key is absent and nothing here guarantees it is present: an internal exception "
+                      "(e.g. a flat name table from which an inner construct of the same name already removed the entry)", line=node.lineno)
+    if n < 12:
+        raise AnalysisError(f"C18.m: only {n} removal sites found (floor 12)")
+
+
+_run4 = run
+
+
+def run(ctx, rep, tier):
+    _run4(ctx, rep, tier)
+    _partial_removals(ctx, rep, tier)
